@@ -125,6 +125,8 @@ Definition ideal_update (rb : gmap (N * N * wid) (bool * N)) (w : wid) (u : upd)
   | UEor _ => rb
   | URoutes af ann a wf wd =>
       fold_left (fun rb p => ideal_ann rb w af p a) ann (fold_left (fun rb p => ideal_wd rb w wf p) wd rb)
+  | UGen _ _ _ ann a wd =>
+      fold_left (fun rb (fp : N * N) => ideal_ann rb w fp.1 fp.2 a) ann (fold_left (fun rb (fp : N * N) => ideal_wd rb w fp.1 fp.2) wd rb)
   end.
 
 Definition ideal_entries (rb : gmap (N * N * wid) (bool * N)) (fam pfx : N) : list (wid * bool * N) :=
